@@ -19,7 +19,7 @@ CLAIMS = {
         "futures, keeps the window full, surfaces fatal/exhausted failures without yielding the failed index, performs at most "
         "n*(max_retries+1) submissions, and that stitching by index reproduces the serial rows. The Gallina state machine is "
         "compared exactly (yield order, submit log, in-flight set, error) with the real run_backend_parallel driven by a "
-        "deterministic executor on exhaustive short scripts and random long ones; the front-ends are run with tagged results.",
+        "deterministic executor on exhaustive short scripts and random long ones; the front-ends are run with tagged results. Extended: scripts with faults on several indices and on index 0; runner exceptions recorded as outcomes.",
         COMMON_NOTE + "Not modelled: process start-up, pickling, real time-outs, tqdm. Assumes a wait() batch behaves like its "
         "futures completing one at a time.",
         "DESIGN.md §3 C13"),
@@ -30,7 +30,7 @@ CLAIMS = {
         "two_site_svd respects its cap, and that over every sequence of split / centre-move operations with adversarial spectra "
         "each bond stays below max(cap, min_bond_dim, its initial value). The model's binary64 instance is compared bit-exactly "
         "with the real split_mps_tensor / two_site_svd on injected spectra (ties, rank-deficient, zero, thresholds at exact "
-        "cumulative weights); whole simulator runs with caps 1..6 (digital, analog, noisy) are searched for a bond above the bound.",
+        "cumulative weights); whole simulator runs with caps 1..6 (digital, analog, noisy) are searched for a bond above the bound. Extended: the rank-selection code is regenerated from the source by a translator and proved equal to the model (obligations); svd_shift_bounded for the uncapped SVD centre shift; whole runs record the real bonds at every sampling point, incl. cap 1, non-uniform initial bonds, noisy threshold-0 runs.",
         COMMON_NOTE + "Modelled, not verified: LAPACK validity; that QR/one-site updates never enlarge a bond (checked by the whole-run search only).",
         "DESIGN.md §3 C08"),
     "C09": (
@@ -41,7 +41,7 @@ CLAIMS = {
         "mode counts exactly the values >= threshold*largest and clamps, two_site_svd cuts strictly less than its threshold and keeps "
         "at least two. PARTIAL: the reconstruction identity |theta-AB|^2 = discarded weight, the isometry of the advertised factor and "
         "the agreement of the three distributions are checked numerically against a dense SVD on generated tensors (search), not yet "
-        "mechanised; binary64 accumulation is compared bit-exactly with the model but the inequality is proved over Q.",
+        "mechanised; binary64 accumulation is compared bit-exactly with the model but the inequality is proved over Q. Extended: the reconstruction identity is now mechanised over any commutative ring with involution (truncation_error_is_discarded_weight); source tie by translation as in C08; wide-range spectra.",
         COMMON_NOTE + "Modelled, not verified: LAPACK returns a valid SVD with non-increasing non-negative values.",
         "DESIGN.md §3 C09"),
     "C14": (
@@ -53,7 +53,7 @@ CLAIMS = {
         "grids of any length. The words are compared exactly with the real analog_tjm_1/2 run with recording stubs (real "
         "has_scheduled_jump); the binary64 time-matching model is compared bit-exactly with has_scheduled_jump up to 10^6 steps. "
         "PARTIAL: the numerical action of the operator (application, two-site merge/split, renormalisation) is covered by the "
-        "dense 'apply once at t_k' search only.",
+        "dense 'apply once at t_k' search only. Extended: the time-matching tests of has_scheduled_jump/apply_scheduled_jumps are regenerated from the source and proved equal to the model and to each other; local-operator theorem for the action of a one-site jump.",
         COMMON_NOTE + "Assumes the state is determined by the word of kernel calls.",
         "DESIGN.md §3 C14"),
     "C15": (
@@ -62,7 +62,7 @@ CLAIMS = {
         "after j steps, that with sampling off the single column is the state at the total time for every grid with >= 2 points, "
         "and (PARTIAL: over Flocq's real-number model of binary64, 1 <= k <= 2^40, no underflow) that round(fl(fl(k*dt)/dt)) = k "
         "so the grid has k+1 points. The PrimFloat grid model is compared bit for bit (length, first, second, last element) with "
-        "AnalogSimParams.times on a (k, dt) sweep; all four solvers are searched for wrong result lengths / values at the total time.",
+        "AnalogSimParams.times on a (k, dt) sweep; all four solvers are searched for wrong result lengths / values at the total time. Extended: the expression assigned to AnalogSimParams.times is regenerated from the source and proved equal to the grid model; sweep over time units 1e-12..1e3; observable-reuse histories.",
         COMMON_NOTE + "Axioms: the standard-library real-number axioms and classic (through Flocq) for C15_len_partial only. "
         "The bridge PrimFloat ops = Flocq rounding is not proved (sweep).",
         "DESIGN.md §3 C15"),
@@ -76,7 +76,7 @@ CLAIMS = {
         "The model's event sequence is compared exactly with the real loop (through _run_strong_sim/_run_weak_sim, stubs for the "
         "gate kernels) on random circuits; real-numerics search compares results with/without barriers and each sampled column "
         "with Qiskit's Statevector of the prefix. PARTIAL: Qiskit's DAG API is modelled as an instruction list with the "
-        "front-layer rule; labelled barriers are taken full-width.",
+        "front-layer rule; labelled barriers are taken full-width. Extended: layer-sampling history model (run_layers) with theorem and history trace; partial and trailing labelled barriers.",
         COMMON_NOTE + "Modelled, not verified: DAGCircuit.front_layer/remove_op_node.",
         "DESIGN.md §3 C16"),
     "C20": (
@@ -88,7 +88,7 @@ CLAIMS = {
         "_run_weak_sim on enumerated and random histories, serial and parallel (deterministic executor). The search runs real "
         "simulations: reused vs fresh noise-free results, deep equality of circuit/Hamiltonian/noise model before and after, one "
         "OS-seeded Generator per trajectory with distinct states. PARTIAL: statistical independence of separately OS-seeded "
-        "generators (also across forked workers) is a property of NumPy/the OS and is not modelled.",
+        "generators (also across forked workers) is a property of NumPy/the OS and is not modelled. Extended: layer-sampling histories (columns depend on the circuit of the run only).",
         COMMON_NOTE,
         "DESIGN.md §3 C20"),
     "C18": (
@@ -99,7 +99,7 @@ CLAIMS = {
         "forms are proved to be one-parameter groups through the identity. Angle expressions are normalised by field_simplify so that "
         "algebraically equal rewrites of the source keep the proofs valid. PARTIAL: closed form = analytic matrix exponential is cited "
         "(group law proved); tensor orientation (set_sites transposes), extend_gate/split_tensor (SVD split, identity padding, reversal) "
-        "are checked numerically for both orientations and separations 1..4 by the search, not mechanised.",
+        "are checked numerically for both orientations and separations 1..4 by the search, not mechanised. Extended: padded_gate_mpo theorem (identity pass-through padding; flipped chain for descending sites) and structural tie of the real mpo_tensors; fine Trotter angles.",
         COMMON_NOTE + "Axioms: the three standard-library real-number axioms (sig_forall_dec, sig_not_dec, functional_extensionality_dep). "
         "The translator is trusted to render the supported expression grammar; it fails closed on anything else.",
         "DESIGN.md §3 C18"),
@@ -112,7 +112,7 @@ CLAIMS = {
         "exp(-i A(x)B) exactly (projector-splitting exactness for a rank-one generator inside the window) and the Krylov accuracy are "
         "not mechanised; they are covered by the search, which compares simulator.run(get_state=True) with Qiskit's Operator on random "
         "circuits over the full gate set, both orientations, all built-in initial states: amplitudes up to global phase and all one- and "
-        "adjacent two-site Pauli expectation values.",
+        "adjacent two-site Pauli expectation values. Extended: theorem that contracting a one-site operator with a site tensor acts exactly on every amplitude (any ring, any chain); operator-identity tie per executed two-qubit gate (exp(-i generator) handed to the windowed TDVP = that gate's unitary incl. qubit order); repetition families, deep 8/9-qubit circuits, shuffled observable listings.",
         COMMON_NOTE + "Axioms: closed under the global context for the scheduling theorems; the real-number axioms for the C18 part.",
         "DESIGN.md §3 C02"),
     "C11": (
@@ -124,7 +124,7 @@ CLAIMS = {
         "centre of the state being read is, from the isometry of the real tensors). PARTIAL: that a centred local contraction equals "
         "the dense expectation value (isometry of the environments) is not mechanised here; the search compares every observable kind "
         "of the library on random entangled normalised states, plus norm, overlap and bitstring probability, and shuffled lists "
-        "through simulator.run, with the dense vector.",
+        "through simulator.run, with the dense vector. Extended: centred_expectation_is_dense (left-isometric prefix, right-isometric suffix => sum over all basis strings = centre contraction; any ring, length, dimensions), merged two-site tensors; MPS.expect tied to that contraction on the real tensors; front-end attribution trace (serial/parallel); entangling two-site observables.",
         COMMON_NOTE,
         "DESIGN.md §3 C11"),
     "C01": (
@@ -138,7 +138,7 @@ CLAIMS = {
         "checked on the dense vector. The search enumerates the WHOLE outcome tree of one-step trajectories (TJM order 1, order 2, "
         "MCWF) with the probabilities the code itself uses and compares the average with the dense Lindblad solution at dt and dt/2 "
         "(local error must fall ~4x) and under reversal of the process list. PARTIAL: 'first-order consistent + symmetric "
-        "composition => global O(dt^2) at fixed step count' and the exponentials themselves are not mechanised.",
+        "composition => global O(dt^2) at fixed step count' and the exponentials themselves are not mechanised. Extended: the dissipation sweep is modelled (every process damped exactly once at its own site; theorem + operator-identity trace of apply_dissipation against each process's own exponential), preprocess_mcwf is tied operator by operator, lists contain zero-strength entries and repeated kinds with distinct strengths.",
         COMMON_NOTE + "Axioms: standard-library real-number axioms for the theorems over R.",
         "DESIGN.md §3 C01"),
     "C03": (
@@ -149,7 +149,7 @@ CLAIMS = {
         "processes the model selects, in order (random circuits x random lists with duplicates and unsorted sites). The search "
         "enumerates the whole outcome tree of circuits with <= 2 two-qubit gates and compares the average with 'exact gate, then "
         "unit-time Lindblad channel of the local processes' at strengths g and g/2 (error must fall ~4x). PARTIAL: the O(g^2) remainder "
-        "and the exactness of gate application (C02) are not mechanised.",
+        "and the exactness of gate application (C02) are not mechanised. Extended: dissipation sweep model/theorems and trace at unit step as in C01.",
         COMMON_NOTE + "Axioms: standard-library real-number axioms for the theorems over R.",
         "DESIGN.md §3 C03"),
     "C06": (
@@ -160,7 +160,7 @@ CLAIMS = {
         "index and the signs of <Z_i> reported by TJM order 1/2, MCWF and Lindblad (t=0 and after evolution under a site-diagonal "
         "Hamiltonian) vs the model. Search: the solvers on asymmetric initial states (basis strings, Neel, wall) with random "
         "Hamiltonians and one-site noise against the dense master equation / unitary evolution. PARTIAL: RK45 meeting its "
-        "tolerance and the time-stepping error of TJM/MCWF are not mechanised (tolerances 2e-4 / 5e-3).",
+        "tolerance and the time-stepping error of TJM/MCWF are not mechanised (tolerances 2e-4 / 5e-3). Extended: two-site operator embedding (pair_digit) with theorem and tie through the four embedding front-ends; complex initial states, Y observables, two-site observables and processes in the search.",
         COMMON_NOTE,
         "DESIGN.md §3 C06"),
     "C04": (
@@ -172,7 +172,7 @@ CLAIMS = {
         "by mpo_utils.iterate is compared densely with U1.U2^dagger (Qiskit) for arbitrary pairs with long-range gates, swaps, cz, cp. "
         "Search: equivalence_checker.run on re-synthesised (equivalent) pairs and near-miss pairs, both argument orders, several SVD "
         "thresholds. PARTIAL: the zone-by-zone MPO construction (temporal zones, SVD re-splitting, long-range gate MPOs) is tied "
-        "numerically, not mechanised.",
+        "numerically, not mechanised. Extended: the zone-by-zone construction is now mechanised as a schedule (Checker.v): termination, each gate of circuit 1 applied once from the left and each gate of circuit 2 once conjugated from the right in dependency-preserving orders, hence value = U1.U2^dagger in every monoid with an anti-involution; the real application log is compared with the model; the verdict expression is regenerated from the source and proved equal to the model.",
         COMMON_NOTE + "Axioms: standard-library real-number axioms.",
         "DESIGN.md §3 C04"),
     "C07": (
@@ -184,7 +184,7 @@ CLAIMS = {
         "the model. PARTIAL (searched, not mechanised): dense interpretation of the tensors, dense = sparse, SVD compression within "
         "tolerance, from_matrix round trip, boson/transmon automata, the other circuit builders (Heisenberg, 2-D snake order, "
         "Fermi-Hubbard ladders) and Lie-Trotter convergence — every builder is compared with the dense sum of its documented terms and "
-        "every circuit with exp(-iHT) at 4/8/16 steps.",
+        "every circuit with exp(-iHT) at 4/8/16 steps. Extended: HamTerms (term lists of hamiltonian/ising/heisenberg; bonds, fields, coefficients, count; captured-argument tie), ChainFSM (all-lengths theorem for the Start/channel/End automaton; bose_hubbard tensors decoded against it), Transmon (exact decoding; bounded theorem for lengths 1..12), every compression schedule in the oracle.",
         COMMON_NOTE,
         "DESIGN.md §3 C07"),
     "C10": (
@@ -196,7 +196,7 @@ CLAIMS = {
         "right-isometric sites right of c from any prior knowledge and that the canonical-form query lists c. Ties: the isometry the "
         "model derives after random sequences of shift/set/normalize/flip (QR and SVD) must be measured on the real tensors and its "
         "centres reported by the real check_canonical_form; the independently contracted vector must be unchanged by every operation. "
-        "PARTIAL: LAPACK returning a valid factorisation (SVD mode: within 1e-12), flip_network and zero padding are tied numerically.",
+        "PARTIAL: LAPACK returning a valid factorisation (SVD mode: within 1e-12), flip_network and zero padding are tied numerically. Extended: flip_network and zero padding are now theorems (flip_preserves_amplitudes, zero_padding_preserves); operation sequences on MPS with aliased tensors and rescaled gauges.",
         COMMON_NOTE,
         "DESIGN.md §3 C10"),
     "C12": (
@@ -209,7 +209,7 @@ CLAIMS = {
         "branches of measure_single_shot is forced (scripted choice) for random entangled states in the Z, X and Y bases and the product "
         "of the vectors handed to choice is compared with the dense Born probability; keys vs the model. Search: in-place measure() "
         "(probability and projected state, both outcomes) and weak simulations (counts, key range, no zero-probability outcome). "
-        "PARTIAL: basis rotation and numpy's choice are modelled, not verified.",
+        "PARTIAL: basis rotation and numpy's choice are modelled, not verified. Extended: rotated-basis theorem (a local basis rotation keeps the site right-isometric); borderline noise strengths and run histories in the weak-run oracle.",
         COMMON_NOTE,
         "DESIGN.md §3 C12"),
     "C05": (
@@ -221,7 +221,7 @@ CLAIMS = {
         "recording identity kernels on random bond patterns and caps. PARTIAL: exactness of the local Krylov steps (C19), truncation "
         "error (C09), second order of the symmetric splitting / first order of BUG are not mechanised; the search checks norm and "
         "energy drift and the error against the dense exp(-iHt) at dt and dt/2 (ratio test above the noise floor) and the agreement "
-        "of the two integrator orders.",
+        "of the two integrator orders. Extended: step_ops (which operator tensors a step works with) with theorem and operator-identity trace incl. an MPO object rebuilt in place; wide 8-site chains (matrix-free local steps).",
         COMMON_NOTE,
         "DESIGN.md §3 C05"),
     "C19": (
@@ -233,7 +233,7 @@ CLAIMS = {
         "applications of the real expm_krylov on invariant-subspace starts and on runs that can neither break down nor converge vs "
         "the dimension the skeleton predicts. PARTIAL (searched): floating-point Lanczos orthogonality, LAPACK, and the accuracy "
         "bound — expm_krylov / expm_arnoldi are compared with scipy.linalg.expm for Hermitian / non-Hermitian operators, deficient "
-        "starts, +-dt, sizes around the dense (128) and compiled (4096) switches; norm preservation on every path.",
+        "starts, +-dt, sizes around the dense (128) and compiled (4096) switches; norm preservation on every path. Extended: defective generators, negative steps, dense-vs-matrix-free comparison.",
         COMMON_NOTE,
         "DESIGN.md §3 C19"),
     "C17": (
@@ -245,7 +245,7 @@ CLAIMS = {
         "coefficients on random matrices with the live states, the live dual frame reproducing random 4x4 matrices, Choi index order. "
         "PARTIAL (searched): pinv, sequence bookkeeping, weighted aggregation and the simulated segments — tomography.run + "
         "predict_final_state on held-out preparations and CPTP maps vs the partial trace of the dense evolution (L=2,3, one and two "
-        "segments, TJM and MCWF).",
+        "segments, TJM and MCWF). Extended: aggregation/bookkeeping model (TomoAgg) with theorems and scripted-runner tie; several predictions per tensor; multi-segment MCWF.",
         COMMON_NOTE + "Axioms: standard-library real-number axioms.",
         "DESIGN.md §3 C17"),
 }
